@@ -5,6 +5,8 @@ The plugin is executed only after the provider received the `starting` stage inp
 hands out that input only when every required dependency is resolved (C02) and never once one of them is unresolvable.
 -/
 import Arca.Proofs.LoopDag
+import Arca.Proofs.GateInv
+import Arca.Gen.Decisions
 
 namespace Arca.Props.C04
 open Arca.Model
@@ -33,5 +35,162 @@ theorem status_monotone (P : Prepared) (fns : Fns) (ord : Order) (s : LoopState)
     (h : LoopDagInv P s) (id : String) (st : St) (hst : st ≠ St.waiting) (hs : statusIs s.dag id st) :
     statusIs (react P fns ord s e).1.dag id st :=
   react_status_mono P fns ord s e h id st hst hs
+
+/-! ## Provider part: the gates of a plugin step over the RAW stage-input values
+
+`Arca.Model.Gate` is the transition system of `run()` between the deployment and the start of the plugin, with the two
+decisions of `provideEnablingInput` / `provideCancelledInput` plugged in from the regenerated facts
+(`Arca.Gen.pluginEnabledDecision`, `Arca.Gen.pluginStopDecision`: extract/decisions.go reads them from the source on every
+run).  The workflow loop validates a stage input against the bool schema but hands the raw value on, so a literal
+`enabled: false` reaches the provider as the STRING "false": what C04 needs is that no value the schema READS as false
+ever enables the step, and that a value it reads as true fires the stop. -/
+
+open Arca.Model.Gate Arca.Gen
+
+/-- the real provider: decisions as extracted from the current source -/
+def pluginCfg : Cfg :=
+  { enabledDec := pluginEnabledDecision
+    stopDec := pluginStopDecision }
+
+/-- the extractor understood all three decisions (otherwise the theorems below would be about `unknown`) -/
+theorem decisions_recognised :
+    pluginEnabledDecision.known = true ∧ foreachEnabledDecision.known = true ∧ pluginStopDecision.known = true := by
+  decide
+
+/-- `enabled := input["enabled"] == nil || input["enabled"] == true`: exactly nil and the Go bool `true` enable -/
+theorem enabled_iff_nil_or_true (i : Option Val) :
+    pluginEnabledDecision.eval i = true ↔ (i = none ∨ i = some .null ∨ i = some (.bool true)) := by
+  simp only [pluginEnabledDecision, FieldCond.eval]
+  rcases i with _ | v
+  · simp [FieldCond.rawNil, FieldCond.rawEqBool]
+  · cases v <;> simp [FieldCond.rawNil, FieldCond.rawEqBool]
+
+theorem foreach_enabled_iff_nil_or_true (i : Option Val) :
+    foreachEnabledDecision.eval i = true ↔ (i = none ∨ i = some .null ∨ i = some (.bool true)) := by
+  simp only [foreachEnabledDecision, FieldCond.eval]
+  rcases i with _ | v
+  · simp [FieldCond.rawNil, FieldCond.rawEqBool]
+  · cases v <;> simp [FieldCond.rawNil, FieldCond.rawEqBool]
+
+/-- **what C04 needs of the enabled gate**: a value the bool schema reads as false (`false`, "false", "no", "off", 0, "0",
+    ...) never enables the step -/
+theorem false_reading_never_enables (v : Val) (h : boolRead v = some false) :
+    pluginEnabledDecision.eval (some v) = false ∧ foreachEnabledDecision.eval (some v) = false := by
+  have hne : v ≠ .bool true := by intro hv; subst hv; simp [boolRead] at h
+  have hnn : v ≠ .null := by intro hv; subst hv; simp [boolRead] at h
+  constructor
+  · cases hb : pluginEnabledDecision.eval (some v) with
+    | false => rfl
+    | true => have := (enabled_iff_nil_or_true (some v)).1 hb; simp [hne, hnn] at this
+  · cases hb : foreachEnabledDecision.eval (some v) with
+    | false => rfl
+    | true => have := (foreach_enabled_iff_nil_or_true (some v)).1 hb; simp [hne, hnn] at this
+
+/-- a value the schema does not read at all never enables either -/
+theorem unreadable_never_enables (v : Val) (h : boolRead v = none) (hn : v ≠ .null) :
+    pluginEnabledDecision.eval (some v) = false := by
+  have hne : v ≠ .bool true := by intro hv; subst hv; simp [boolRead] at h
+  cases hb : pluginEnabledDecision.eval (some v) with
+  | false => rfl
+  | true => have := (enabled_iff_nil_or_true (some v)).1 hb; simp [hne, hn] at this
+
+/-- `stop_if`: the stop is applied iff the value is present and is not the Go bool `false` -/
+theorem stop_iff_present_and_not_false (i : Option Val) :
+    pluginStopDecision.eval i = true ↔ ¬ (i = none ∨ i = some .null ∨ i = some (.bool false)) := by
+  simp only [pluginStopDecision, FieldCond.eval]
+  rcases i with _ | v
+  · simp [FieldCond.rawNil, FieldCond.rawEqBool]
+  · cases v <;> simp [FieldCond.rawNil, FieldCond.rawEqBool]
+
+/-- **what C04 needs of the stop gate**: a value the schema reads as true fires the stop -/
+theorem true_reading_stop_fires (v : Val) (h : boolRead v = some true) : pluginStopDecision.eval (some v) = true := by
+  apply (stop_iff_present_and_not_false (some v)).2
+  intro hx
+  rcases hx with hx | hx | hx
+  · simp at hx
+  · injection hx with hx; subst hx; simp [boolRead] at h
+  · injection hx with hx; subst hx; simp [boolRead] at h
+
+/-- The converse readings do NOT hold for the current code (kernel-checked witnesses; reported as candidate findings of the
+    declarative meaning, not of C04, which only restricts execution): the literal `enabled: true` reaches the provider as
+    the string "true", which the schema reads as true and which DISABLES the step; the literal `stop_if: false` reaches it
+    as "false", which the schema reads as false and which STOPS the step. -/
+theorem reads_true_yet_disabled_counterexample :
+    ∃ v, boolRead v = some true ∧ pluginEnabledDecision.eval (some v) = false :=
+  ⟨.str "true", by decide, by decide⟩
+
+theorem reads_false_yet_stopped_counterexample :
+    ∃ v, boolRead v = some false ∧ pluginStopDecision.eval (some v) = true :=
+  ⟨.str "false", by decide, by decide⟩
+
+/-- `executes_only_if_enabled`: under every interleaving of the callers with `run()`, the plugin is handed its input only
+    after an enabling input whose raw value is nil or the Go bool `true` was accepted -/
+theorem executes_only_if_enabled (s : GState) (h : Reach pluginCfg s) (he : s.pc = .executing) :
+    ∃ i, s.given = some i ∧ (i = none ∨ i = some .null ∨ i = some (.bool true)) := by
+  obtain ⟨i, hg, hev⟩ := (inv_reach pluginCfg s h).pass (by simp [he, passed])
+  exact ⟨i, hg, (enabled_iff_nil_or_true i).1 hev⟩
+
+/-- `false_reading_never_executes`: once an enabling input whose value reads false was accepted, `run()` never gets past the
+    enable gate: it neither announces the starting stage by that path nor executes the plugin -/
+theorem false_reading_never_executes (s : GState) (h : Reach pluginCfg s) (v : Val)
+    (hg : s.given = some (some v)) (hr : boolRead v = some false) : passed s.pc = false ∧ s.pc ≠ .executing := by
+  have hinv := inv_reach pluginCfg s h
+  have hnp : passed s.pc = false := by
+    cases hp : passed s.pc with
+    | false => rfl
+    | true =>
+      obtain ⟨i, hg', hev⟩ := hinv.pass hp
+      rw [hg] at hg'
+      injection hg' with hg'
+      subst hg'
+      have := (false_reading_never_enables v hr).1
+      simp [pluginCfg] at hev
+      rw [this] at hev
+      exact absurd hev (by decide)
+  refine ⟨hnp, ?_⟩
+  intro he
+  simp [he, passed] at hnp
+
+/-- `disabled_reports_disabled`: the disabled end (transitionToDisabled: `disabled.output`) is reached only on an enabling
+    input on which the decision is false, and such an input never leads past the gate -/
+theorem disabled_reports_disabled (s : GState) (h : Reach pluginCfg s) (hd : s.pc = .disabledEnd) :
+    ∃ i, s.given = some i ∧ pluginEnabledDecision.eval i = false :=
+  (inv_reach pluginCfg s h).dis hd
+
+/-- `stop_before_start_partial`: a firing stop (or a close) processed while `run()` is still waiting for its deploy input or deploying, or parked in the
+    `select` of `enableStage` / `startStage`, ends the step: the plugin is never executed, and if the starting stage had not
+    been announced by then it never is.  (Partial: the full clause - "processed before the starting stage was announced" -
+    is false for the current code, see `stop_before_start_counterexample`.) -/
+theorem stop_before_start_partial (s : GState) (h : Reach pluginCfg s) (he : s.stoppedEarly = true) :
+    s.pc ≠ .executing ∧ (s.stoppedBeforeAnnounce = true → s.announced = false) := by
+  have hinv := inv_reach pluginCfg s h
+  refine ⟨?_, hinv.sea he⟩
+  intro hx
+  have := (hinv.early he).2
+  simp [hx] at this
+
+/-- the same for any decisions: the closure argument does not depend on what the two decisions are -/
+theorem stop_before_start_partial_any (c : Cfg) (s : GState) (h : Reach c s) (he : s.stoppedEarly = true) :
+    s.pc ≠ .executing := by
+  intro hx
+  have := ((inv_reach c s h).early he).2
+  simp [hx] at this
+
+/-- **F16** (design finding, unchanged code): a stop that is processed BEFORE the step announces its starting stage does
+    not always prevent the execution.  Witness: both inputs are already there when the deployment finishes; the stop arrives
+    between the context check of `startPlugin` and the `select` of `enableStage`; the `select` finds both cases ready and
+    takes the enabled value; the non-blocking receive in `startStage` takes the run input without looking at the context. -/
+theorem stop_before_start_counterexample :
+    ∃ acts s, exec pluginCfg Gate.init acts = some s ∧ s.stoppedBeforeAnnounce = true ∧ s.pc = .executing :=
+  ⟨[.provideDeploy, .recvDeploy, .provideEnabling (some (.bool true)), .provideStarting, .deployOk, .provideCancelled (some (.bool true)),
+    .evalEnableSelect false, .recvRunNonBlocking], _, rfl, by decide, by decide⟩
+
+/-- non-vacuity: the gate lets an enabled, unstopped step through, and disables on the string "false" -/
+example : (exec pluginCfg Gate.init [.provideDeploy, .recvDeploy, .deployOk, .evalEnableSelect false, .provideEnabling none, .recvRunNonBlocking,
+    .evalStartSelect false, .provideStarting]).map (·.pc) = some .executing := by decide
+example : (exec pluginCfg Gate.init [.provideDeploy, .recvDeploy, .deployOk, .evalEnableSelect false, .provideEnabling (some (.str "false"))]).map (·.pc)
+    = some .disabledEnd := by decide
+example : (exec pluginCfg Gate.init [.provideDeploy, .recvDeploy, .deployOk, .evalEnableSelect false, .provideCancelled (some (.str "yes")),
+    .provideEnabling (some (.bool true)), .provideStarting]).map (·.pc) = some .closedEnd := by decide
 
 end Arca.Props.C04
